@@ -140,7 +140,9 @@ Definition dups (p : pipe) : option (list Z) :=
 
 (* ------------------------------------------------------------------ op instances ---------- *)
 Definition DUPOFF : Z := 1000.
-Definition bid (b off : Z) : Z := b * 1048576 + 524288 + off.
+(* injective for buffer ids 0 <= b < 4096 (ids_ok below) and every offset *)
+Definition IDLIM : Z := 4096.
+Definition bid (b off : Z) : Z := off * IDLIM + b.
 
 (* arith.remui idx, 2 == 0 ? buffer : clone *)
 Definition sel (ds : list Z) (idx b : Z) : Z :=
@@ -244,9 +246,14 @@ Definition reads_fixed (b : Z) (st : stage) : bool :=
   (0 <? occ (Fixed b) (flat_map s_reads st))%nat.
 Definition touches_fixed (b : Z) (st : stage) : bool := writes_fixed b st || reads_fixed b st.
 
+Definition indexed {A} (l : list A) : list (nat * A) := combine (seq 0 (length l)) l.
+
 Definition read_only (p : pipe) (b : Z) : bool := negb (existsb (writes_fixed b) (p_stages p)).
+(* touched by at most one stage *)
 Definition private_to_one (p : pipe) (b : Z) : bool :=
-  (length (filter (touches_fixed b) (p_stages p)) <=? 1)%nat.
+  forallb (fun ks => forallb (fun ks' =>
+     (fst ks =? fst ks')%nat || negb (touches_fixed b (snd ks) && touches_fixed b (snd ks')))
+     (indexed (p_stages p))) (indexed (p_stages p)).
 (* written only by stage s = out_stage without being read there, read only by stage s+1, which
    does not write it *)
 Definition dup_ok (p : pipe) (b : Z) : bool :=
@@ -254,7 +261,21 @@ Definition dup_ok (p : pipe) (b : Z) : bool :=
   forallb (fun ks => let '(k, st) := ks in
      (if (k =? s)%nat then negb (reads_fixed b st) else negb (writes_fixed b st)) &&
      (if (k =? s + 1)%nat then true else negb (reads_fixed b st)))
-    (combine (seq 0 (length (p_stages p))) (p_stages p)).
+    (indexed (p_stages p)).
+
+(* inside one stage (one barrier-separated phase of the ORIGINAL loop) ops of different cores do
+   not touch an operand one of them writes: the original loop itself is race free *)
+Definition accessed (o : sop) : list operand := s_reads o ++ s_outs o.
+Definition stage_ok (st : stage) : bool :=
+  forallb (fun o => forallb (fun o' =>
+     (s_core o =? s_core o') ||
+     forallb (fun w => negb (existsb (operand_eqb w) (accessed o'))) (s_outs o)) st) st.
+
+Fixpoint nodupb (l : list Z) : bool :=
+  match l with
+  | [] => true
+  | x :: r => negb (memb x r) && nodupb r
+  end.
 
 Fixpoint tiles_of (l : list operand) : list (Z * Z) :=
   match l with
@@ -268,7 +289,14 @@ Definition tiles_ok (p : pipe) : bool :=
                      forallb (fun bs' => negb (fst bs =? fst bs') || (snd bs =? snd bs')) ts &&
                      negb (memb (fst bs) (fixed_buffers p))) ts.
 
+(* well-formedness of the description: buffer ids small enough for [bid] to be injective, op ids
+   distinct *)
+Definition ids_ok (p : pipe) : bool :=
+  forallb (fun b => (0 <=? b) && (b + DUPOFF <? IDLIM)) (fixed_buffers p ++ map fst (tiles_of (all_operands p))) &&
+  nodupb (map s_vid (concat (p_stages p))).
+
 Definition safe_pipe (p : pipe) (ds : list Z) : bool :=
+  ids_ok p && forallb stage_ok (p_stages p) &&
   tiles_ok p &&
   forallb (fun b => if memb b ds then dup_ok p b else read_only p b || private_to_one p b) (fixed_buffers p) &&
   forallb (fun b => negb (memb (b + DUPOFF) (fixed_buffers p)) &&
